@@ -104,6 +104,11 @@ def report_cross(prop: str, seed: int, tier: str, xviol: list[dict], hs_of: dict
             c1, info = minimise_pair_c11(c1, key, sig, h1, h2)
             c2 = dict(c1, hashseed=h2)
             c1 = dict(c1, hashseed=h1)
+        else:
+            try:
+                c1, c2, info = minimise_pair_graph(prop, c1, c2, key, sig, h1, h2)
+            except M.Harness as e:
+                info = {"error": str(e)[:300]}
         kf = M.match_open(known, prop, sig)
         if kf:
             out["known_hits"][sig] = out["known_hits"].get(sig, 0) + 1
@@ -193,3 +198,32 @@ def minimise_pair_c11(case: dict, key: str, sig: str, h1: int, h2: int) -> tuple
         s2.close()
     info["sig"] = sig
     return small, info
+
+
+def minimise_pair_graph(prop: str, c1: dict, c2: dict, key: str, sig: str, h1: int, h2: int) -> tuple[dict, dict, dict]:
+    """Shrink the two realisations (two hash seeds, two construction histories) of one abstract scenario jointly."""
+    import minimise
+
+    s1, s2 = Server(h1), Server(h2)
+    budget = minimise.Budget(150)
+    try:
+        def fails(cs: list) -> bool:
+            if budget.left <= 0:
+                return False
+            budget.left -= 1
+            budget.used += 1
+            a = s1.eval(cs[0])
+            b = s2.eval(cs[1])
+            if "error" in a or "error" in b:
+                return False
+            va, vb = a.get("xv", {}).get(key), b.get("xv", {}).get(key)
+            if va is None or vb is None or va == vb:
+                return False
+            return classify(prop, key, va, vb, cs[0]) == sig
+
+        small, info = minimise.minimise_many([c1, c2], fails, budget)
+    finally:
+        s1.close()
+        s2.close()
+    info["sig"] = sig
+    return small[0], small[1], info
